@@ -14,7 +14,7 @@ from vf import geom
 from vf import xc17_geo as xg
 
 ID = "C17"
-BUDGET = {"quick": 24000, "thorough": 600000}
+BUDGET = {"quick": 16000, "thorough": 600000}
 MIN_KEYS = 60
 
 CLAMP_KINDS = ["line", "radial", "plane", "curve", "surface", "free"]
